@@ -30,16 +30,19 @@ var c10Atoms = append(append([]ora.Atom{}, c09Atoms...),
 	ora.Atom{Name: "PGR", Gen: func(t *ora.Tok) string {
 		return "<div class=\"pagination\"><a href=\"/fetched/page-1.html\">1</a> 2 <a href=\"/fetched/page-3.html\">3</a> <a href=\"/fetched/page-3.html\">Next</a></div>"
 	}},
+	ora.Atom{Name: "QREF", Gen: func(t *ora.Tok) string {
+		return "<p>" + t.W(14) + " <a href=\"?x=" + t.U() + "\">" + t.W(2) + "</a> <a href=\"//cdn.example.net/" + t.U() + "\">" + t.W(1) + "</a> " + t.W(6) + "</p><img src=\"?img=" + t.U() + "\" width=\"400\" height=\"300\"><div class=\"pagination\"><a href=\"?page=1\">1</a> 2 <a href=\"?page=3\">3</a></div>"
+	}},
 	ora.Atom{Name: "SCH", Gen: func(t *ora.Tok) string {
 		return "<div itemscope itemtype=\"http://schema.org/Article\"><span itemprop=\"headline\">" + t.W(3) + "</span><a rel=\"author\" href=\"/a\">" + t.W(2) + "</a><img itemprop=\"image\" src=\"i/" + t.U() + ".jpg\"></div>"
 	}},
 )
 
-var c10Alphabet = []string{"FONT", "JS1", "NOS", "PIC", "PICf", "LAZY", "LAZYs", "YT", "TW", "VIDs", "TBLd", "TBLi", "ATTRS", "FIGl", "IMGrel", "PGR", "SCH", "HIDs", "BR"}
+var c10Alphabet = []string{"FONT", "JS1", "NOS", "PIC", "PICf", "LAZY", "LAZYs", "YT", "TW", "VIDs", "TBLd", "TBLi", "ATTRS", "FIGl", "IMGrel", "PGR", "SCH", "HIDs", "BR", "QREF"}
 
 const c10Fetch = "http://example.com/fetched/page-2.html"
 
-var c10OptNames = []string{"nil", "url", "url-pagenumber", "all-flags", "other-url", "no-url", "no-url-flags", "url-slash-pagenumber", "url-slash-prevnext"}
+var c10OptNames = []string{"nil", "url", "url-pagenumber", "all-flags", "other-url", "no-url", "no-url-flags", "url-slash-pagenumber", "url-slash-prevnext", "url-nopath", "url-nopath-skip"}
 
 func c10Opts(name string) *distiller.Options {
 	u, _ := nurl.Parse("http://caller.example/original/page-2.html?x=1#frag")
@@ -58,6 +61,12 @@ func c10Opts(name string) *distiller.Options {
 	case "url-slash-prevnext":
 		us, _ := nurl.Parse("http://example.com/fetched/dir%20x/?q=1#top")
 		return &distiller.Options{OriginalURL: us, LogFlags: distiller.LogPagination}
+	case "url-nopath":
+		un, _ := nurl.Parse("http://example.com")
+		return &distiller.Options{OriginalURL: un, PaginationAlgo: distiller.PageNumber}
+	case "url-nopath-skip":
+		un, _ := nurl.Parse("https://example.com")
+		return &distiller.Options{OriginalURL: un, SkipPagination: true}
 	case "no-url":
 		return &distiller.Options{}
 	case "no-url-flags":
@@ -68,7 +77,7 @@ func c10Opts(name string) *distiller.Options {
 	return nil
 }
 
-var c10Entries = []string{"apply-doc", "apply-sub", "url"}
+var c10Entries = []string{"apply-doc", "apply-sub", "url", "apply-multiroot"}
 
 func c10Enumerate(tier string, emit func(*eng.Case)) {
 	atoms := c10Atoms
@@ -78,7 +87,7 @@ func c10Enumerate(tier string, emit func(*eng.Case)) {
 		maxE = 2
 	}
 	var hists [][]int
-	seqEnum([]int{0, 1, 2}, maxH, func(seq []int) {
+	seqEnum([]int{0, 1, 2, 3}, maxH, func(seq []int) {
 		if len(seq) > 0 {
 			hists = append(hists, append([]int{}, seq...))
 		}
@@ -91,6 +100,15 @@ func c10Enumerate(tier string, emit func(*eng.Case)) {
 			for _, h := range hists {
 				if tier != "thorough" && edits == 0 && len(h) < 2 {
 					continue
+				}
+				nMulti := 0
+				for _, x := range h {
+					if x == 3 {
+						nMulti++
+					}
+				}
+				if tier != "thorough" && nMulti > 0 && (len(h) == 3 || (on != "nil" && on != "url")) {
+					continue // quick: the multi-root entry in histories of <= 2 calls with two option sets
 				}
 				if tier != "thorough" && len(h) == 3 && !(on == "url" || on == "url-pagenumber" || on == "no-url" || on == "nil") {
 					continue
@@ -169,12 +187,27 @@ func c10Check(c *eng.Case) *eng.Outcome {
 	} else {
 		subEl = ora.Elements(doc, "body")[0]
 	}
+	// a document node with several element children (as html.ParseFragment users build)
+	multi := &html.Node{Type: html.DocumentNode}
+	if frag := ora.Parse(c.HTML); frag != nil {
+		if b := ora.Elements(frag, "body"); len(b) > 0 {
+			if d := ora.Elements(b[0], "div"); len(d) > 0 {
+				for ch := d[0].FirstChild; ch != nil; {
+					next := ch.NextSibling
+					d[0].RemoveChild(ch)
+					multi.AppendChild(ch)
+					ch = next
+				}
+			}
+		}
+	}
 	oldTransport := http.DefaultTransport
 	http.DefaultTransport = &stubTransport{body: c.HTML}
 	defer func() { http.DefaultTransport = oldTransport }()
 
 	owned := map[*html.Node]bool{}
 	ora.Walk(doc, func(n *html.Node) bool { owned[n] = true; return true })
+	ora.Walk(multi, func(n *html.Node) bool { owned[n] = true; return true })
 	var ownedWrites []string
 	verifrt.Hook = func(kind, site, arg int, write bool, n *html.Node) {
 		if kind == verifrt.KNodeWrite && owned[n] && len(ownedWrites) < 5 {
@@ -186,6 +219,7 @@ func c10Check(c *eng.Case) *eng.Outcome {
 	last := map[string]string{}
 	for ci, entry := range strings.Split(c.Get("hist"), ",") {
 		beforeT, _ := treeSnapshot(doc)
+		beforeM, _ := treeSnapshot(multi)
 		beforeO := optsSnapshot(opts)
 		ownedWrites = nil
 		var res *distiller.Result
@@ -196,6 +230,8 @@ func c10Check(c *eng.Case) *eng.Outcome {
 				res, err = distiller.Apply(doc, opts)
 			case "apply-sub":
 				res, err = distiller.Apply(subEl, opts)
+			case "apply-multiroot":
+				res, err = distiller.Apply(multi, opts)
 			case "url":
 				res, err = distiller.ApplyForURL(c10Fetch, 5*time.Second, opts)
 			}
@@ -206,7 +242,11 @@ func c10Check(c *eng.Case) *eng.Outcome {
 			return o
 		}
 		afterT, _ := treeSnapshot(doc)
+		afterM, _ := treeSnapshot(multi)
 		afterO := optsSnapshot(opts)
+		if beforeM != afterM {
+			o.V("tree-modified:"+entry+":multiroot", "call #%d (%s): the caller's multi-root document changed: %s; %s", ci, entry, firstDiff(beforeM, afterM), c.Get("doc"))
+		}
 		if beforeT != afterT {
 			o.V("tree-modified:"+entry, "call #%d (%s): the caller's tree changed: %s; %s", ci, entry, firstDiff(beforeT, afterT), c.Get("doc"))
 		}
@@ -236,7 +276,7 @@ func init() {
 	eng.Register(&eng.Prop{
 		ID:        "C10",
 		DesignRef: "§5 C10",
-		Rule: "documents = S1 with <= 1 (quick) / <= 2 (thorough) insertions over 19 atoms in which the library rewrites nodes (font, javascript: anchor, noscript image, picture, lazy images (with and without a placeholder src that gets overwritten), embeds, video, tables, attribute-laden elements, relative links, pager, schema.org item); x options {nil, URL, URL+PageNumber, all log flags, URL with userinfo/escaped path + SkipPagination, non-nil options without URL (plain and with flags), URLs with trailing slash, escaped path and fragment under each pagination algorithm} x every history of <= 3 calls over entry points {Apply(document), Apply(attached sub-element), ApplyForURL via an in-process RoundTripper} reusing one tree and one *Options. " +
+		Rule: "documents = S1 with <= 1 (quick) / <= 2 (thorough) insertions over 20 atoms in which the library rewrites nodes (font, javascript: anchor, noscript image, picture, lazy images (with and without a placeholder src that gets overwritten), embeds, video, tables, attribute-laden elements, relative links, pager, schema.org item); x options {nil, URL, URL+PageNumber, all log flags, URL with userinfo/escaped path + SkipPagination, non-nil options without URL (plain and with flags), URLs with trailing slash, escaped path and fragment under each pagination algorithm, URLs without a path} x every history of <= 3 calls over entry points {Apply(document), Apply(attached sub-element), ApplyForURL via an in-process RoundTripper, Apply(document node with several element children)} reusing one tree and one *Options. " +
 			"Oracle after every call: structural snapshot of the whole tree (types, names, atoms, attributes, parent/child/sibling links) unchanged; no hooked write (field assignment or DOM mutator) touched a caller-owned node; Options and *OriginalURL unchanged (including the pointer); repeated calls give the same result; ApplyForURL reports the fetched address. Non-trivial = history of >= 2 calls or non-nil options.",
 		Enumerate: c10Enumerate,
 		Check:     c10Check,
